@@ -67,7 +67,7 @@ MIN_COUNTERS = {
                  "random_histories": 400000, "pareto_fronts_judged": 30000, "live_store_events_judged": 1500,
                  "maximize_cases": 400000, "original_objective_sign_restored": 100000},
 }
-SHARD_TIMEOUT = {"quick": 400, "thorough": 2400}
+SHARD_TIMEOUT = {"quick": 900, "thorough": 6000}  # caps only; nominal wall is ~30 s / ~4 min
 
 N_SHARDS = 16
 N_CELL = 6
@@ -82,7 +82,7 @@ def shards(tier, seed):
     n_random = {"quick": 6000, "thorough": 60000}[tier]
     n_live = {"quick": 2, "thorough": 12}[tier]
     return [{"seed": subseed(seed, PID, i), "n_random": n_random, "n_live": n_live, "n_shards": N_SHARDS,
-             "budget_s": {"quick": 360, "thorough": 2200}[tier]} for i in range(N_SHARDS)]
+             "budget_s": {"quick": 800, "thorough": 5400}[tier]} for i in range(N_SHARDS)]
 
 
 def coverage_extra(tier, counters):
@@ -169,11 +169,14 @@ def pattern_case(pair_i, mode_i, pat):
 
 
 # --------------------------------------------------------------------------- random histories
-def gen_history(rng):
-    n_x = int(rng.integers(1, 4))
+def gen_history(rng, n_x=None):
+    # n_x is fixed per shard (it plays no role in the selection rule) to keep the number of distinct real problems
+    # to build small: every ProblemFunction allocates a multiprocessing lock, which is slow on a loaded machine
+    r_nx = int(rng.integers(1, 4))
+    n_x = r_nx if n_x is None else n_x
     n_pts = int(rng.choice([1, 1, 2, 2, 3, 3, 4, 5, 6, 8, 10, 12]))
     n_con = int(rng.choice([0, 1, 1, 2, 2, 3]))
-    obj_dim = 1 if rng.random() < 0.82 else int(rng.integers(2, 4))
+    obj_dim = 1 if rng.random() < 0.9 else int(rng.integers(2, 4))
     tol_ineq = float(rng.choice([0.0, 1e-4, 0.25, 10.0 ** rng.uniform(-6, 0)]))
     tol_eq = float(rng.choice([0.0, 1e-2, 0.5, 10.0 ** rng.uniform(-6, 0)]))
     cons = [[f"c{j}", str(rng.choice(["ineq", "eq"])), int(rng.choice([1, 1, 2, 3]))] for j in range(n_con)]
@@ -253,8 +256,9 @@ _PROBLEMS: dict = {}
 
 def get_problem(meta):
     """A real, pre-processed OptimizationProblem for this meta (cached per shard; the database is cleared)."""
+    # the declared dimension of a constraint function plays no role in what is judged here: not part of the key
     key = (meta["n_x"], meta["minimize"], meta["standardized"], meta["obj_dim"],
-           tuple(tuple(c) for c in meta["constraints"]))
+           tuple((c[0], c[1]) for c in meta["constraints"]))
     prob = _PROBLEMS.get(key)
     if prob is None:
         from gemseo.algos.design_space import DesignSpace
@@ -271,7 +275,7 @@ def get_problem(meta):
         for name, ctype, dim in meta["constraints"]:
             prob.add_constraint(MDOFunction(lambda x, d=dim: np.zeros(d), name, dim=dim), constraint_type=ctype)
         prob.preprocess_functions()  # as every driver does (gives the functions their call counters)
-        if len(_PROBLEMS) > 400:
+        if len(_PROBLEMS) > 3000:
             _PROBLEMS.clear()
         _PROBLEMS[key] = prob
     prob.tolerances.inequality = meta["tol_ineq"]
@@ -893,7 +897,7 @@ def run_shard(spec, rep):
         if rep.time_left() < 0:
             rep.count("stopped_on_time_budget")
             break
-        case = gen_history(rng)
+        case = gen_history(rng, n_x=1 + shard % 3)
         run_history_case(case, rep)
         rep.count("random_histories")
         if i == 0:
